@@ -8,7 +8,7 @@ os.chdir('/verif')
 only = sys.argv[1:]
 rows = []
 for d in sorted(os.listdir('seeded')):
-    if not re.fullmatch(r'C\d\d-\d', d) or (only and d not in only and d.split('-')[0] not in only):
+    if not re.fullmatch(r'C\d\d-\d+', d) or (only and d not in only and d.split('-')[0] not in only):
         continue
     out = subprocess.run(['tools/run_seed.sh', d], capture_output=True, text=True).stdout
     m = re.search(r'rc=(\d+)', out)
